@@ -11,7 +11,14 @@ P = {
             "peer failure fragments; every step's failure fragments / failed ids / delivered bundles / open transmissions compared with "
             "the model. MTCP: real MTCPClient on a recorded, scriptable connection piped into the real MTCPServer loop; bundles of encoded "
             "size around 255/256, 4093 (bufio), 8189, 65535/65536; keep-alive bytes at every frame boundary, the client's real 5 s ticker "
-            "once, cuts at every write of a Send at several byte offsets, sends on a broken connection, one loopback-TCP connection. "
+            "once, cuts at every write of a Send at several byte offsets, sends on a broken connection, one loopback-TCP connection; "
+            "reuse = ONE client object over 2..4 connections (Close + Start again as cla.Manager.Restart does) after a Send cut at every "
+            "write / byte offset, a transient write failure or a bundle that cannot be serialised (also: the next Send on the same "
+            "connection): every connection judged on its own, every Send that returned nil delivered exactly its bundle, every write of "
+            "a Send belongs to the frame of its bundle. BBC sendpend = Connector.Send while failure reports are pending (queued before "
+            "the Send or injected while Send waits in the middle of a > 64 fragment train; ids: own, the previous Send's, foreign; 1..64 "
+            "reports): without an own report the train on the link is complete (sequence numbers, marks, reassembly), with one Send "
+            "errors and the train is not completed. "
             "distinct = distinct case bodies (input + observation)",
     "assumptions": [
         "BBC: the xz codec and the bundle CBOR codec are outside the model (Transmission.Bundle() enters as the oracle `decodes`); "
